@@ -145,7 +145,7 @@ Definition pf_reencode_strict (c : gcase) : bool :=
 (* the statement of go_roundtrip_nf_partial evaluated on the model for the case's documents: a document
    in the safe fragment on which the conclusion fails (must never happen: the theorem says so) *)
 Definition in_safe_fragment (ctx : schemas) (p n : string) (d : json) : bool :=
-  (ir_valid_object ctx p n d && roundtrip_safeF ctx p n d && json_wf d)%bool.
+  (ctx_supported ctx && struct_object ctx p n && ir_valid_object ctx p n d && roundtrip_safeF ctx p n d && json_wf d)%bool.
 Definition mm_rt_spec (c : gcase) : bool :=
   let '(ctx, p, n, docs, _, _) := c in
   (negb (case_unmodelled c) &&
